@@ -291,6 +291,9 @@ def run(ctx):
     # ---- outcomes x formats -------------------------------------------------------------------------------------
     if not ctx.replay_cases or any(c["kind"] == "fmt" for c in cases):
         fcs = [c["fmt"] for c in cases if c["kind"] == "fmt"] if ctx.replay_cases else fmt_cases(ctx)
+        if ctx.replay_cases:          # a recorded result is judged against the same outcome under the raw format: run that one too
+            have = {(c["okind"], c["format"]) for c in fcs}
+            fcs += [dict(c, format="raw") for c in list(fcs) if (c["okind"], "raw") not in have]
         for k, c in enumerate(fcs):
             c["id"] = k
             c["dir"] = ctx.workdir
